@@ -173,6 +173,10 @@ func c02Atoms() []c02Atom {
 	out = append(out, c02Atom{gen.In(K(), gen.Str("b"), gen.Str("zz"), gen.Str("ab")), "mget", false})
 	// listed keys that are not stored, sorting before stored ones (point reads that find nothing first)
 	out = append(out, c02Atom{gen.In(K(), gen.Str("c"), gen.Str("aaaa"), gen.Str("b"), gen.Str("aaab")), "mget", false})
+	// BETWEEN with a bound that is not a literal pins nothing
+	out = append(out, c02Atom{gen.Between(K(), gen.Str("a"), gen.Value()), "opaque", false})
+	out = append(out, c02Atom{gen.Between(K(), gen.Value(), gen.Str("c")), "opaque", false})
+	out = append(out, c02Atom{gen.Between(K(), gen.Str("ab"), gen.Call("lower", gen.Str("C"))), "opaque", false})
 	// literals ending in the highest byte value (no successor: "prefix + 1" has to carry)
 	out = append(out, c02Atom{gen.Bin("^=", K(), gen.Str("a\xff")), "prefix", false})
 	out = append(out, c02Atom{gen.Bin("^=", K(), gen.Str("\xff")), "prefix", false})
